@@ -46,7 +46,7 @@ def default_response(rid='r1', irt='id1', issuer=env.IDP1, destination=env.SP_AC
     return {'id': rid, 'issue_instant': env.ts(t - 5), 'destination': destination, 'irt': irt, 'issuer': issuer}
 
 
-def observe(sp, xml, binding=env.BINDING_POST, outstanding=None, conv_info=None, encoded=None):
+def observe(sp, xml, binding=env.BINDING_POST, outstanding=None, conv_info=None, encoded=None, outstanding_certs=None):
     """-> observation dict; identity is reported with provenance markers"""
     log = []
     xmlsec_model.SINK = log
@@ -55,7 +55,8 @@ def observe(sp, xml, binding=env.BINDING_POST, outstanding=None, conv_info=None,
         if encoded is None:
             encoded = sb.deflate_b64(xml) if binding == env.BINDING_REDIRECT else sb.b64(xml)      # POST and Artifact: base64 only
         try:
-            resp = sp.parse_authn_request_response(encoded, binding, outstanding, conv_info=conv_info)
+            resp = sp.parse_authn_request_response(encoded, binding, outstanding, conv_info=conv_info,
+                                                   **({'outstanding_certs': outstanding_certs} if outstanding_certs else {}))
         except Exception as exc:
             obs['exc'] = type(exc).__name__
             obs['msg'] = str(exc)[:200]
